@@ -37,6 +37,10 @@ Differs(a, b) ==
 \* consumers without allocations are the residue a crash may leave
 DropIdle(s) == [s EXCEPT !.cons = [c \in {d \in DOMAIN @ : d \in DOMAIN s.alloc} |-> @[c]]]
 
+NamedRetry(ln) ==
+  \/ ln.fault.kind \in {"deadlock", "deadlock_rb"} /\ ln.req.op \in {"alloc_put", "alloc_post", "sync"}
+  \/ ln.fault.kind = "duplicate" /\ ln.req.op = "agg_put"
+
 FaultVerdict(ln) ==
   LET db0 == NormState(ln.db0)
       fin == NormState(ln.final)
@@ -50,6 +54,12 @@ FaultVerdict(ln) ==
                            \/ \E c \in (DOMAIN db0.cons) \cap (DOMAIN fin.cons) : fin.cons[c].gen # db0.cons[c].gen)
       THEN {"C10_ErrorMovedGeneration"} ELSE {})
 \cup (IF IsErr(ln.resp) /\ fin # db0 /\ DropIdle(fin) = DropIdle(db0) THEN {"residue:idle-consumer"} ELSE {})
+\* The three situations C17 names - a deadlock during an allocation write or the start-up
+\* synchronisation, a duplicate-key race while an aggregate is first recorded - are retried:
+\* with one such fault the request succeeds (and, above, exactly once).
+\cup (IF ln.fault.kind \in {"deadlock", "deadlock_rb", "duplicate"} /\ NamedRetry(ln) /\ ~IsOk(ln.resp)
+         /\ IsOk(exp.resp)
+      THEN {"C17_NamedFaultNotRetried"} ELSE {})
 \cup (IF IsErr(ln.resp) /\ ~ln.wellformed THEN {"C17_ErrorNotWellFormed"} ELSE {})
 \cup (IF ln.resp.status = 599 THEN {"C17_EscapedException"} ELSE {})
 \cup (IF IsOk(ln.resp) /\ ~ln.std_ok THEN {"C17_SyncIncomplete"} ELSE {})
